@@ -81,7 +81,8 @@ def first_key_stress(rng):
         docs.append({k: 1})
         docs.append({k: {"n": [1, 2]}})
         docs.append([{k: "v"}])
-    docs += [{}, [], [[]], [{}], {"a": {}}, {"a": []}, [1], ["s"], [None], [[1, 2], [3]], {"a": 1, "b": [True, None, 1.5, "s"]}]
+    docs += [{}, [], [[]], [{}], {"a": {}}, {"a": []}, [1], ["s"], [None], [[1, 2], [3]], {"a": 1, "b": [True, None, 1.5, "s"]},
+             [1, 2, 3], [0, 255, 128], [255], list(range(256)), [[1, 2], [3, 4]], {"a": [1, 2, 3]}]
     # roots at the boundaries of MessagePack's header widths (fix / 16-bit / 32-bit length)
     for n in (15, 16, 65535, 65536):
         docs.append([0] * n)
@@ -114,6 +115,14 @@ def run_self_detection(outcome, tier, seed):
             nd = rng.choice([1, 1, 2, 3]) if to != "toml" else 1
             plans.append((v, to, nd, len(reqs)))
             reqs.append({"id": len(reqs), "to": to, "calls": [{"input": shared.hx(t * nd), "from": "msgpack", "mode": "slice"}]})
+            # the same document written by the other route to the writer (a JSON slice goes through the buffered Value)
+            if gen.representable(v, "json") and len(t) < 20000:
+                try:
+                    tj = gen.spell_canonical(v, "json")
+                except Exception:
+                    continue
+                plans.append((v, to, 1, len(reqs)))
+                reqs.append({"id": len(reqs), "to": to, "calls": [{"input": shared.hx(tj), "from": "json", "mode": "slice"}]})
     resps = common.harness_batch(reqs)
     # stage 2: feed it back with and without the format named
     reqs2, plans2 = [], []
